@@ -1,7 +1,7 @@
 """Entry / exit cascades and region-recursion helpers (C02.cascade, C03.start-stop, C08.sites, C09.entry, C10.first),
 constructor wiring order (C07.wiring), history policy tables (C08.table), blocking gate (C11.gate), try/catch shape (C12.catch)."""
 from engine import rule
-from facts import Facts, strip_cvref
+from facts import Facts, strip_cvref, parse_type
 from rules_core import backend_of, is_backend
 from effects import Effects, leaf_class, ACTIVE_MEMBERS, FLAG_MEMBER
 from rules_rtc import const_of, active_index, member_chain
@@ -331,10 +331,15 @@ def kind(F, R):
             if n['k'] != 'call' or n.get('n') not in ('on_entry', 'on_exit') or not n.get('obj'): continue
             lc = leaf_class(F, n)
             if lc not in ('ENTRY', 'EXIT'): continue
-            t = strip_cvref(f.type_of(n['obj'])).rstrip('*').strip()
+            o = n['obj']
+            while f.nodes[o] and f.nodes[o]['k'] == 'icast' and f.nodes[o].get('ck') in ('DerivedToBase', 'UncheckedDerivedToBase', 'NoOp'): o = f.nodes[o]['e']
+            t = strip_cvref(f.type_of(o)).rstrip('*').strip()
             t = strip_cvref(t)
             R.seen(f); R.anchor('leaf-behaviour-call:' + backend_of(f))
-            is_machine = t.startswith('boost::msm::back::state_machine<') or t.startswith('boost::msm::back11::state_machine<') or t.startswith('boost::msm::backmp11::state_machine<') or t.startswith('boost::msm::backmp11::detail::state_machine_base<')
+            def machine_type(x):
+                head, args, rest = parse_type(x)
+                return args is not None and not rest.strip() and head in ('boost::msm::back::state_machine', 'boost::msm::back11::state_machine', 'boost::msm::backmp11::state_machine', 'boost::msm::backmp11::detail::state_machine_base')
+            is_machine = machine_type(t)
             if not is_machine:
                 rec = F.rec_by_type(t)
                 # user classes deriving from a back-end machine (backmp11 'Derived' pattern)
@@ -343,8 +348,7 @@ def kind(F, R):
                     nxt = None
                     for b in rec['bases']:
                         bt = F.strs[b['t']]
-                        if bt.startswith('boost::msm::back::state_machine<') or bt.startswith('boost::msm::back11::state_machine<') or bt.startswith('boost::msm::backmp11::state_machine<') or bt.startswith('boost::msm::backmp11::detail::state_machine_base<'):
-                            is_machine = True
+                        if machine_type(bt): is_machine = True
                         nxt = nxt or F.rec_by_type(bt)
                     rec = nxt; depth += 1
             R.ob('C02.kind', not is_machine, {'func': f.q, 'call': n['n'], 'receiver': Facts.short(t, 100)})
